@@ -67,7 +67,7 @@ func latBoundary(t reflect.Type, depth int) []reflect.Value {
 		if depth >= latMaxDepth {
 			return []reflect.Value{empty}
 		}
-		zero := reflect.Zero(t.Elem())
+		zero := latNew(t.Elem())
 		rich := latRich(t.Elem(), depth+1)
 		one0 := reflect.Append(reflect.MakeSlice(t, 0, 1), zero)
 		one1 := reflect.Append(reflect.MakeSlice(t, 0, 1), rich)
@@ -91,6 +91,7 @@ func latBoundary(t reflect.Type, depth int) []reflect.Value {
 			return nil
 		}
 		p0 := reflect.New(t.Elem())
+		p0.Elem().Set(latNew(t.Elem()))
 		p1 := reflect.New(t.Elem())
 		p1.Elem().Set(latRich(t.Elem(), depth+1))
 		return []reflect.Value{p0, p1}
@@ -107,10 +108,46 @@ func latBoundary(t reflect.Type, depth int) []reflect.Value {
 	return nil
 }
 
+var latSetType = reflect.TypeOf(lruset.Set{})
+
+// latSetWays is the way count of the LRU sets inside synthesised elements.
+const latSetWays = 2
+
+// latNew returns the base value of t used wherever the lattice synthesises a
+// value from scratch: the zero value, except that every lruset.Set inside it
+// (through structs and arrays) is built by lruset.NewSet. A zero lruset.Set{}
+// is a value the package never produces, so it is not part of the lattice.
+func latNew(t reflect.Type) reflect.Value {
+	v := reflect.New(t).Elem()
+	latInitSets(v)
+	return v
+}
+
+func latInitSets(v reflect.Value) {
+	switch v.Kind() {
+	case reflect.Struct:
+		if v.Type() == latSetType {
+			if v.CanSet() {
+				v.Set(reflect.ValueOf(lruset.NewSet(latSetWays)))
+			}
+			return
+		}
+		for i := 0; i < v.NumField(); i++ {
+			if v.Type().Field(i).PkgPath == "" {
+				latInitSets(v.Field(i))
+			}
+		}
+	case reflect.Array:
+		for i := 0; i < v.Len(); i++ {
+			latInitSets(v.Index(i))
+		}
+	}
+}
+
 // latRich returns a value of t with every reachable exported location set to
 // its first boundary value.
 func latRich(t reflect.Type, depth int) reflect.Value {
-	v := reflect.New(t).Elem()
+	v := latNew(t)
 	if depth > latMaxDepth {
 		return v
 	}
@@ -145,7 +182,7 @@ func latRichAlt(t reflect.Type, depth int) reflect.Value {
 	case reflect.Struct, reflect.Array, reflect.Slice, reflect.Map, reflect.Ptr, reflect.Interface:
 		return latRich(t, depth)
 	}
-	v := reflect.New(t).Elem()
+	v := latNew(t)
 	if b := latBoundary(t, depth); len(b) > 0 {
 		v.Set(b[len(b)-1])
 	}
@@ -158,10 +195,10 @@ func latElemVariants(et reflect.Type, nest int) (names []string, vals []reflect.
 	if et.Kind() != reflect.Struct || nest > 1 {
 		return nil, nil
 	}
-	probe := reflect.New(et).Elem()
+	probe := latNew(et)
 	for _, l := range latCollectN(probe, nil, nest+1) {
 		for _, m := range l.Moves {
-			e := reflect.New(et).Elem()
+			e := latNew(et)
 			m.Apply(l.Get(e))
 			names = append(names, strings.TrimPrefix(l.Where, et.Name())+"="+m.Name)
 			vals = append(vals, e)
@@ -270,7 +307,7 @@ func latSpecial(v reflect.Value, nest int) ([]latMove, bool) {
 				for i := 0; i < 3 && room(dst); i++ {
 					e := latRich(et, 1)
 					if i == 1 {
-						e = reflect.Zero(et)
+						e = latNew(et)
 					}
 					call(dst, "PushTyped", e)
 				}
@@ -332,7 +369,7 @@ func latSpecial(v reflect.Value, nest int) ([]latMove, bool) {
 					// touches the sink
 					call(dst, "Tick", reflect.Zero(sinkT))
 					if can(dst) {
-						call(dst, "Accept", reflect.Zero(et))
+						call(dst, "Accept", latNew(et))
 					}
 				}
 			}},
